@@ -295,6 +295,18 @@ def run(ctx):
                 if n.kind == 'stmt' and n.part in (None, 'store') and isinstance(n.stmt, ast.Assign) and in_stmts(n.stmt, stmts) and any(is_self_attr(t, '_dead') for t in n.stmt.targets) \
                         and isinstance(n.stmt.value, ast.Constant) and n.stmt.value.value is True:
                     ok = bool(dom.get(n.id, set()) & ev)
+                    if region == 'parent':
+                        # remote kind, parent side: the worker is dead only if the remote child is dead as well - the store follows `_remote_dead = True`
+                        # or sits on the side of a test that establishes self._remote_dead (the outcome being there is no evidence: a persistent
+                        # frontend fabricates one whenever its forwarding loop ends)
+                        rev = {x.id for x in g.nodes if x.kind == 'stmt' and x.part in (None, 'store') and isinstance(x.stmt, ast.Assign) and any(is_self_attr(t, '_remote_dead') for t in x.stmt.targets)
+                               and isinstance(x.stmt.value, ast.Constant) and x.stmt.value.value is True}
+                        rev |= {e.dst.id for x in g.nodes if x.kind == 'test' for e in x.succ if e.kind in ('true', 'false') and ('self._remote_dead', True) in edge_facts(e)}
+                        okr = bool(dom.get(n.id, set()) & rev)
+                        ctx.check('R2', f'{F}: `_dead = True` at line {n.line} is set under evidence that the remote child is dead too', okr, F, 'dead-flag-without-remote-evidence',
+                                  f'{F} caches the worker as dead on a path where nothing says that the remote child has ended (neither `_remote_dead` nor a reply of the server): '
+                                  'is_alive() answers False - and close()/wait()/terminate() become no-ops - while the child is still running on the server, so it outlives its pool',
+                                  where=loc(f, n.stmt))
                     ctx.check('R2', f'{F}: `_dead = True` at line {n.line} is set under evidence that the local child is not alive', ok, F, 'dead-flag-without-evidence',
                               f'{F} caches the worker as dead on a path where its local child (thread / process object) has not been observed dead: is_alive() returns False - and wait() '
                               'returns True at once - for a worker that is still running (e.g. a frontend thread still delivering results)', where=loc(f, n.stmt))
